@@ -249,6 +249,9 @@ TRoot == /\ Good("root")
                 v05 == IF Ev.res # "ok" THEN {} ELSE
                        (IF Ev.rbf # Bf \/ Ev.rnf # NfName THEN {V("C05", "root record carries a different branch factor or node format", Ev.h)} ELSE {})
                        \cup (IF ~missing /\ ~newroot.ok THEN {V("C05", "loading the returned root does not give back the entries", Ev.h)} ELSE {})
+                \* C08 (its consequence for versions): one root name, one contents
+                v08 == IF Ev.res = "ok" /\ \E p \in names : p[2] = Ev.name /\ p[3] # es
+                       THEN {V("C08", "the same root name is returned for versions with different contents", Ev.h)} ELSE {}
                 v13 == IF Ev.res # "ok" \/ missing THEN {} ELSE
                        (IF ~(W \subseteq Reach(Ev.link)) THEN {V("C13", "writes a node that is not reachable from the returned root", Ev.h)} ELSE {})
                        \cup (IF mods = {} /\ (W # {} \/ Ev.link # base.root) THEN {V("C13", "nothing modified, yet nodes written or a different root returned", Ev.h)} ELSE {})
@@ -264,8 +267,8 @@ TRoot == /\ Good("root")
                 s2 == IF mods # {} THEN Bump(s1, "rootdirty") ELSE s1
                 s3 == IF W = predW THEN Bump(s2, "wexact") ELSE IF W \subseteq predW THEN Bump(s2, "wless") ELSE Bump(s2, "wother")
             IN IF Ev.res = "ok"
-               THEN Finish([th EXCEPT ![Ev.h] = t2], cur, rts \cup {newroot}, names \cup {<<Ev.link, Ev.name>>},
-                           vmiss \cup v04 \cup v09 \cup v05 \cup v13, s3)
+               THEN Finish([th EXCEPT ![Ev.h] = t2], cur, rts \cup {newroot}, names \cup {<<Ev.link, Ev.name, es>>},
+                           vmiss \cup v04 \cup v09 \cup v05 \cup v08 \cup v13, s3)
                ELSE Finish(th, cur, rts, names, vfail, s1)
 
 TLoad == /\ Good("load")
